@@ -71,7 +71,7 @@ def run(ctx: core.Ctx):
     T = core.tables()
     rng = ctx.rng
     thorough = ctx.tier == "thorough"
-    n_hist = 400 if thorough else 40
+    n_hist = 2000 if thorough else 40
     from ynca.connection import YncaProtocolStatus  # noqa: F401
 
     total_msgs = 0
